@@ -1395,7 +1395,9 @@ class BayesianNetwork(DAG):
 
         # Step 6: Postprocess and return
         if include_latents:
-            return samples.astype("category")
+            # Drop the auxiliary variables added for the virtual evidence.
+            aux_vars = ["__" + cpd.variables[0] for cpd in virtual_evidence]
+            return samples.drop(columns=aux_vars).astype("category")
         else:
             return (samples.loc[:, list(set(self.nodes()) - self.latents)]).astype(
                 "category"
